@@ -289,8 +289,9 @@ def placement_world(sub_b, sub_c, n_unmapped):
     w = {"chroms": {"chr1": 6000, "chr2": 6000, "chr3": 6000}, "genes": [], "reads": [], "sites": []}
     w["genes"].append({"id": "G1", "chr": "chr1", "strand": "+", "transcripts": [{"id": "T1", "exons": [[1001, 1300], [1601, 1900], [2201, 2600]]}]})
     syn.plant_for_transcripts(w)
-    reads = [W.read_of("a%d" % i, "chr1", [[1001, 1300], [1601, 1900], [2201, 2600]]) for i in range(2)]
-    exp = {"a0", "a1"}
+    # the first read of chr1 has a name starting with '#' (legal in SAM; '#' also starts the header lines of the output tables)
+    reads = [W.read_of(nm, "chr1", [[1001, 1300], [1601, 1900], [2201, 2600]]) for nm in ("#a0", "a1")]
+    exp = {"#a0", "a1"}
     stats = {"primary": 2, "secondary": 0, "supplementary": 0, "unaligned": n_unmapped}
     for chrom, sub in (("chr2", sub_b), ("chr3", sub_c)):
         blocks3 = [[1001, 1300], [1601, 1900], [2201, 2600]]
@@ -300,10 +301,10 @@ def placement_world(sub_b, sub_c, n_unmapped):
             exp.add("P_" + chrom)
             stats["primary"] += 1
         if "S" in sub:
-            reads.append(W.read_of("a0" if chrom == "chr2" else "a1", chrom, [[3001, 3300]], polya=False, supplementary=True))
+            reads.append(W.read_of("#a0" if chrom == "chr2" else "a1", chrom, [[3001, 3300]], polya=False, supplementary=True))
             stats["supplementary"] += 1
         if "X" in sub:
-            reads.append(W.read_of("a1" if chrom == "chr2" else "a0", chrom, [[3601, 3800], [4001, 4200]], polya=False, secondary=True))
+            reads.append(W.read_of("a1" if chrom == "chr2" else "#a0", chrom, [[3601, 3800], [4001, 4200]], polya=False, secondary=True))
             stats["secondary"] += 1
         if "Q" in sub:
             reads.append(W.read_of("Q_" + chrom, chrom, [[4601, 4900]], polya=False, mapq=0))
@@ -338,8 +339,13 @@ def l4_case(args):
         shutil.rmtree(d, ignore_errors=True)
         return args[:5], errs
     for what, names in (("bed", bed_names), ("tsv", tsv_names)):
-        if set(names) != exp:
-            errs.append(("reported-set:" + what, "reported reads %s, reads passing the documented filters %s" % (sorted(set(names)), sorted(exp))))
+        got = set(names)
+        lost_hash = set(n for n in exp - got if n.startswith("#"))
+        if lost_hash:
+            errs.append(("hash-named-read-lost:" + what, "reads %s (name starting with '#') pass the documented filters but are missing from the %s output" %
+                         (sorted(lost_hash), what)))
+        if got | lost_hash != exp:
+            errs.append(("reported-set:" + what, "reported reads %s, reads passing the documented filters %s" % (sorted(got), sorted(exp))))
     log = open(os.path.join(out, "isoquant.log")).read()
     stats = {}
     m = re.search(r"overall alignment statistics:(.*?)(?:Finishing|No reads)", log, re.S)
